@@ -11,6 +11,7 @@ ENTRIES = [
     ("e_hexa", 6, "e_hexa(src)", "shipped front end: parse_HexaEscape on x + 3 symbolic bytes, then the real decoder", {"text": "x followed by <=3 arbitrary bytes of UTF-8"}),
     ("e_utf8_u", 11, "e_utf8_u::<9,_>(src)", "shipped front end: parse_Utf8Escape on u + 8 symbolic bytes (both u-forms), then the real decoder", {"text": "u followed by <=8 arbitrary bytes of UTF-8"}),
     ("e_utf8_big", 12, "e_utf8_big(src)", "shipped front end: parse_Utf8Escape on U + 9 symbolic bytes, then the real decoder", {"text": "U followed by <=9 arbitrary bytes of UTF-8"}),
+    ("e_ws", 7, "e_ws::<4,_>(src)", "shipped front end: parse_Whitespace (blanks and # comments) on every text of <=4 bytes of UTF-8 against a reference lexer (thorough-tier stretch: 16 min / 16 GB)", {"text": "<=4 arbitrary bytes of UTF-8"}),
     ("e_item", 6, "e_item(src)", "shipped front end: parse_StringItem on every text of <=4 bytes of UTF-8", {"text": "<=4 arbitrary bytes of UTF-8"}),
 ]
 _crate = None
@@ -25,8 +26,14 @@ def crate():
     return _crate
 
 
-def jobs(**kw):
+def jobs(tier="quick", **kw):
     out = []
     for (n, u, c, d, b) in ENTRIES:
+        if n == "e_ws":
+            if tier == "quick":
+                continue
+            out.append(kani.Job(jid=n, crate=crate(), harness=n + "_h", desc=d, bound=dict(b, unwind=u), meta={"role": n},
+                                timeout=3600, mem_gb=26, weight=5, required=False))
+            continue
         out.append(kani.Job(jid=n, crate=crate(), harness=n + "_h", desc=d, bound=dict(b, unwind=u), meta={"role": n}, **kw))
     return out
